@@ -203,6 +203,16 @@ pub fn lipsum(
     let html: Option<bool> = kwargs.get("html")?;
     let html = html.unwrap_or(false);
     let n = n.or(n_kwargs).unwrap_or(5);
+
+    // the amount of text is chosen by the template, keep it bounded
+    const MAX_LIPSUM_WORDS: usize = 1_000_000;
+    if !matches!(n.checked_mul(max.max(min)), Some(words) if words <= MAX_LIPSUM_WORDS) {
+        return Err(Error::new(
+            ErrorKind::InvalidOperation,
+            "lipsum cannot generate that much text",
+        ));
+    }
+
     let mut rv = String::new();
 
     let rng = crate::rand::XorShiftRng::for_state(state);
